@@ -1648,6 +1648,7 @@ def max(*s):
         except: 
             # maybe s[0] is a list or tuple of variables, functions
             # and constants
+            if len(s) != 1: raise
             try: return max(*s[0])
             except: raise NotImplementedError
 
@@ -1687,6 +1688,7 @@ def min(*s):
         except:
             # maybe s[0] is a list or tuple of variables, functions
             # and constants
+            if len(s) != 1: raise
             try: return min(*s[0])
             except: raise NotImplementedError
 
